@@ -703,6 +703,9 @@ impl PackageBuilder {
         }
 
         let uses_large_files = combined_file_sizes > u32::MAX.into();
+        #[cfg(rpm_verif)]
+        let uses_large_files =
+            crate::verif_hooks::large_file_override(combined_file_sizes).unwrap_or(uses_large_files);
 
         // @todo: sort entries by path?
         // @todo: normalize path?
